@@ -188,29 +188,34 @@ def violation(ctx, sig, what, replay):
         ctx.violation(sig, what, replay)
 
 
+def regenerate_files():
+    """translators: source text -> coq/Num/Gen_*.v.  Runs when the module is imported, i.e. BEFORE bin/check builds the
+    Coq development, so that the proofs are always checked against the model fragments of the tree under test."""
+    import realstring
+    import lexnum
+    import normbase
+    changed = realstring.main(vlib.REPO, os.path.join(vlib.COQ, "Num", "Gen_RealString.v"))
+    changed |= lexnum.main(vlib.REPO, os.path.join(vlib.COQ, "Num", "Gen_LexNum.v"))
+    changed |= normbase.main(vlib.REPO, os.path.join(vlib.COQ, "Num", "Gen_Normalize.v"))
+    return changed
+
+
+try:
+    REGEN = ("ok", regenerate_files())
+except Exception as _e:          # a change of the source the translators do not recognise
+    REGEN = ("error", "%s: %s" % (type(_e).__name__, _e))
+
+
 def regenerate(ctx):
-    """translators: source text -> Gen_*.v; returns False when the tie is broken here."""
-    changed = False
-    try:
-        import realstring
-        import lexnum
-        import normbase
-        changed |= realstring.main(vlib.REPO, os.path.join(vlib.COQ, "Num", "Gen_RealString.v"))
-        changed |= lexnum.main(vlib.REPO, os.path.join(vlib.COQ, "Num", "Gen_LexNum.v"))
-        changed |= normbase.main(vlib.REPO, os.path.join(vlib.COQ, "Num", "Gen_Normalize.v"))
-        m = re.search(r"normalize_base : N := (\d+)", open(os.path.join(vlib.COQ, "Num", "Gen_Normalize.v")).read())
-        ctx.note("normalize() passes base %s to mpq_set_str: model variant string_to_rational_b %s (%s)" %
-                 (m.group(1), m.group(1), "octal/hex prefixes honoured: fraction_value_refuted applies" if m.group(1) == "0"
-                  else "decimal only: fraction_value_fixed applies"))
-    except Exception as e:
-        ctx.tie_broken("translator", "%s: %s" % (type(e).__name__, e))
+    if REGEN[0] == "error":
+        ctx.tie_broken("translator", REGEN[1])
         return False
-    if changed:
-        ctx.note("generated model fragments changed: rebuilding the proofs")
-        rc, log = vlib.coq_build(["Properties_C16.vo"])
-        res = vlib.coq_check_properties("C16")
-        if rc != 0 or not res["built"]:
-            ctx.tie_broken("proofs-over-regenerated-model", (log + res["log"])[-1500:])
+    if REGEN[1]:
+        ctx.note("generated model fragments (Gen_RealString.v / Gen_LexNum.v / Gen_Normalize.v) were rewritten from this tree before the proofs were checked")
+    m = re.search(r"normalize_base : N := (\d+)", open(os.path.join(vlib.COQ, "Num", "Gen_Normalize.v")).read())
+    ctx.note("normalize() passes base %s to mpq_set_str: model variant string_to_rational_b %s (%s)" %
+             (m.group(1), m.group(1), "octal/hex prefixes honoured: fraction_value_refuted applies" if m.group(1) == "0"
+              else "decimal only: fraction_value_fixed applies"))
     return True
 
 
